@@ -7,6 +7,7 @@ import (
 	"io"
 	"path/filepath"
 	"reflect"
+	"sort"
 	"strconv"
 	"strings"
 )
@@ -497,7 +498,7 @@ func (n *ForNode) renderForLoop(w io.Writer, ctx *RenderContext, seq interface{}
 		}
 
 	case reflect.Map:
-		keys := val.MapKeys()
+		keys := sortedMapKeys(val)
 		for i, key := range keys {
 			// Set the loop variables
 			loopVars["loop"].(map[string]interface{})["index"] = i + 1
@@ -567,6 +568,23 @@ func (n *ForNode) renderForLoop(w io.Writer, ctx *RenderContext, seq interface{}
 	}
 
 	return nil
+}
+
+// sortedMapKeys returns the keys of a map ordered by their string representation,
+// so that iteration does not depend on Go's randomised map order
+func sortedMapKeys(val reflect.Value) []reflect.Value {
+	keys := val.MapKeys()
+	sort.SliceStable(keys, func(i, j int) bool {
+		return mapKeyString(keys[i]) < mapKeyString(keys[j])
+	})
+	return keys
+}
+
+func mapKeyString(key reflect.Value) string {
+	if key.CanInterface() {
+		return toString(key.Interface())
+	}
+	return key.String()
 }
 
 // BlockNode represents a block definition
